@@ -6,6 +6,7 @@ from ..lib import facts, mir, shapes, src as S
 from ..lib.mir import is_call, unref, path_str
 from . import common_derive as cd, c17, c18
 
+EXHAUSTIVE = False  # contains a finite corpus of programs (witnesses / declarations)
 LEVEL = "translation_validation"
 EXPLANATION = (
     "Translation validation of #[derive(TypeInfo)] over a corpus of declarations (engines/fixtures: 33 types covering named / unnamed / unit "
